@@ -1,4 +1,5 @@
 import Audit.Tool
 import Uds.Props.C15
 import Uds.Props.C15Hist
+import Uds.Props.C15Stray
 #audit Uds.Props.C15
